@@ -198,75 +198,112 @@ def greedy_rules(ck, repo, nf):
     got = nf.return_poly(q, {p: Poly.atom(p, {p}, {p}) for p in param_names(fn)}).canon()
     ok = got in ("argmax(q_net((obs)))", "argmax(q_net([obs]))", "argmax(q_net(obs))", "argmax(q_net((obs)), axis=-1)")
     ck.ob("R4-greedy", q, "argmax-network", ok, f"return {got}", "" if ok else "greedy action must be argmax of the network output on the observation", loc(fn._module, fn))
-    # epsilon-greedy
+    # epsilon-greedy: per path to a return, the returned action is either the uniform draw (iff roll < epsilon) or the greedy action
+    from ..sympath import enumerate_paths, PathEval
+    from ..sem import selector_table
     q = "rl_blox.blox.value_policy.epsilon_greedy_policy"
     fn = repo.func(q)
     mi = fn._module
     cfg = nf.cfg_of(fn)
-    ifs = [n for n in cfg.nodes if n.kind == "test" and isinstance(n.ast, ast.If)]
-    ck.need(len(ifs) == 1, f"{q}: expected one branch")
-    t = ifs[0]
-    sc = Scope(cfg, mi, {p: Poly.atom(p, {p}, {p}) for p in param_names(fn)}, q)
-    test = nf.poly(t.ast.test, sc, t.id).canon()
-    ok = test.startswith("Lt(uniform(") and test.endswith(", epsilon)")
-    ck.ob("R4-greedy", q, "roll<epsilon", ok, f"if {test}", "" if ok else "exploration test must be `roll < epsilon` with roll ~ U[0,1): epsilon 0 is always greedy, epsilon 1 never reads the values", loc(mi, t.ast))
-    body_ret = [n for n in ast.walk(t.ast) if isinstance(n, ast.Return)]
-    def arm(stmts):
-        r = [n for s in stmts for n in ast.walk(s) if isinstance(n, ast.Return)]
-        return nf.poly(r[0].value, sc, cfg.node_of(r[0]).id).canon() if r else None
-    a_true, a_false = arm(t.ast.body), arm(t.ast.orelse) or arm([s for s in fn.body if s is not t.ast and fn.body.index(s) > fn.body.index(t.ast)] if t.ast in fn.body else [])
-    ok = a_true is not None and a_true.startswith("choice(") and "arange(len(q_table[observation]))" in a_true and "q_table[observation]" not in a_true.replace("len(q_table[observation])", "")
-    ck.ob("R4-greedy", q, "random-arm", ok, f"roll < epsilon -> {a_true}", "" if ok else "the exploring arm must draw uniformly among the row's actions without reading the values", loc(mi, t.ast))
-    ok = a_false == "argmax(q_table[observation])"
-    ck.ob("R4-greedy", q, "greedy-arm", ok, f"else -> {a_false}", "" if ok else "the non-exploring arm must be the greedy action of the same table and observation", loc(mi, t.ast))
-    # DQN family loops
+    env = {p: Poly.atom(p, {p}, {p}) for p in param_names(fn)}
+    rets = [n for n in cfg.nodes if n.kind == "stmt" and isinstance(n.ast, ast.Return)]
+    ck.need(rets, f"{q}: no return")
+    nfp = NF(repo, inline_depth=1, inline_calls=False)
+    items, kinds, roll_src = [], {}, None
+    for pth in enumerate_paths(cfg, cfg.entry, {r.id for r in rets}):
+        pe = PathEval(nfp, cfg, mi, q, env).run(pth[:-1])
+        rv = pe.ev(cfg.nodes[pth[-1][0]].ast.value).canon()
+        if rv.startswith("choice(") or "randint(" in rv or rv.startswith("rl_blox") and "random" in rv:
+            kind = "random"
+            okr = "arange(len(q_table[observation]))" in rv and "q_table[observation]" not in rv.replace("len(q_table[observation])", "") or ("randint(" in rv and "q_table" in rv and "argmax" not in rv)
+            kinds.setdefault("random", []).append((rv, okr))
+        elif rv == "argmax(q_table[observation])" or rv.endswith("greedy_policy(q_table, observation)"):
+            kind = "greedy"
+            kinds.setdefault("greedy", []).append((rv, True))
+        else:
+            raise AnalysisError(f"{q}: returned action `{rv[:80]}` is neither the uniform draw nor the greedy action (unrecognised idiom)")
+        conds = [(cfg.nodes[nid].ast.test, nid, lab) for nid, lab in pth[:-1] if cfg.nodes[nid].kind == "test" and lab in (True, False) and isinstance(cfg.nodes[nid].ast, ast.If)]
+        items.append((conds, kind))
+    # the roll: the value compared with epsilon
+    rolls = [n for n in ast.walk(fn) if isinstance(n, ast.Call) and isinstance(n.func, ast.Attribute) and n.func.attr == "uniform"]
+    ck.need(len(rolls) >= 1, f"{q}: no uniform roll found (unrecognised idiom)")
+    roll_txt = nfp.poly(rolls[0], Scope(None, mi, env, q), None).canon()
+    # predicate in terms of the roll's defining call (locals are inlined by the normal form on both sides)
+    pred = ast.Compare(left=rolls[0], ops=[ast.Lt()], comparators=[ast.Name(id="epsilon", ctx=ast.Load())])
+    first_test = next((nid for conds_, _ in items for _, nid, _ in conds_), None)
+    ck.need(first_test is not None, f"{q}: the action does not depend on any test (unrecognised idiom)")
+    verdict, info = selector_table(nfp, mi, cfg, items, pred, "random", "greedy", opaque=set(param_names(fn)), pred_at=first_test)
+    if verdict is None:
+        raise AnalysisError(f"{q}: exploration test not comparable with `roll < epsilon`: {info}")
+    ck.ob("R4-greedy", q, "roll<epsilon", verdict, f"random iff {roll_txt[:60]} < epsilon (truth table over the branch conditions)", "" if verdict else f"exploration must happen exactly when roll < epsilon with roll ~ U[0,1) (epsilon 0 always greedy, epsilon 1 never greedy); differs in the world {info}", loc(mi, fn))
+    okr = "random" in kinds and all(ok_ for _, ok_ in kinds["random"])
+    ck.ob("R4-greedy", q, "random-arm", okr, f"explore -> {[r_[:70] for r_, _ in kinds.get('random', [])][:1]}", "" if okr else "the exploring arm must draw uniformly among the row's actions without reading the values", loc(mi, fn))
+    okg = "greedy" in kinds
+    ck.ob("R4-greedy", q, "greedy-arm", okg, f"exploit -> {[r_[:70] for r_, _ in kinds.get('greedy', [])][:1]}", "" if okg else "the non-exploring arm must be the greedy action of the same table and observation", loc(mi, fn))
+    # DQN family loops: per path through the action selection, the executed action is the space sample iff (step < learning_starts or
+    # roll[step] < epsilon[step]) and the greedy action of the online network on the current observation otherwise
     fam = {"rl_blox.algorithm.dqn.train_dqn": False, "rl_blox.algorithm.nature_dqn.train_nature_dqn": True, "rl_blox.algorithm.ddqn.train_ddqn": True, "rl_blox.algorithm.per.train_ddqn_per": True}
     for lq, has_ls in fam.items():
         L = find_env_loop(repo, lq)
         cfg, mi = L.cfg, L.mi
-        # counter variable
         hdr = cfg.nodes[L.outer_header].ast
         cvar = hdr.target.id if isinstance(hdr, ast.For) else next(x.id for x in (hdr.test.left, hdr.test.comparators[0]) if isinstance(x, ast.Name) and x.id != "total_timesteps")
-        # the If that defines the action passed to env.step
         act = L.step_call.args[0]
         while isinstance(act, ast.Call):
             act = act.args[0]
-        ds = cfg.defs_of(L.step_node, act.id)
-        tests = {b for d in ds for b, lab in cfg.control_deps(d.node) if b in cfg.loop_body_nodes(L.outer_header)}
-        ck.need(len(tests) == 1, f"{lq}: action selection is not a single if/else (unrecognised idiom)")
-        tn = cfg.nodes[tests.pop()]
-        sc = Scope(None, mi, {}, lq)
-        lits = sorted(nf.poly(parse_expr(txt), sc, None).canon() for txt, truth in cfg._lits(tn.ast.test, False, tn.id) if truth is False)
-        want = sorted(([f"Lt({cvar}, learning_starts)"] if has_ls else []) + [f"Lt(epsilon_rolls[{cvar}], epsilon[{cvar}])"])
-        ok = lits == want
-        ck.ob("R4-greedy", lq, "exploration-test", ok, f"random iff {short(tn.ast.test, 80)}", "" if ok else f"documented: random action iff {' or '.join(want)}", loc(mi, tn.ast))
-        for d in ds:
-            lab = [l for b, l in cfg.control_deps(d.node) if b == tn.id]
-            val = ast.unparse(d.value)
-            if lab == [True]:
-                ok = val == f"{L.env}.action_space.sample()"
-                ck.ob("R4-greedy", lq, "random-arm", ok, f"explore -> {val}", "" if ok else "exploring arm must sample the seeded action space", loc(mi, cfg.nodes[d.node].ast))
-            elif lab == [False]:
-                res = Resolver(repo)
-                okf = isinstance(d.value, ast.Call) and isinstance(d.value.func, ast.Name) and repo.resolve_name(mi, d.value.func.id) == "rl_blox.blox.q_policy.greedy_policy"
-                a = [dotted(x) for x in d.value.args] if isinstance(d.value, ast.Call) else []
-                # online network = first parameter (`q_net`), current observation = the variable stored as observation
-                ok = okf and a[:1] == ["q_net"] and len(a) == 2
-                if ok:
-                    # the observation argument is the loop's current observation (the one stored by add_sample)
-                    stored = None
-                    for n in cfg.nodes:
-                        if n.ast is not None and n.kind == "stmt":
-                            for c in ast.walk(n.ast):
-                                if isinstance(c, ast.Call) and isinstance(c.func, ast.Attribute) and c.func.attr == "add_sample":
-                                    for k in c.keywords:
-                                        if k.arg == "observation":
-                                            stored = dotted(k.value)
-                    ok = a[1] == stored
-                ck.ob("R4-greedy", lq, "greedy-arm", ok, f"exploit -> {val}", "" if ok else "the non-exploring arm must be greedy_policy(<online q_net>, <current observation>): acting on the target copy or another observation is not acting on the current estimates", loc(mi, cfg.nodes[d.node].ast))
+        ck.need(isinstance(act, ast.Name), f"{lq}: env.step argument is not a variable")
+        envl = {p: Poly.atom(p, {p}, {p}) for p in param_names(L.fn)}
+        envl[cvar] = Poly.atom(cvar, {cvar}, {cvar})
+        stored = None
+        for n in cfg.nodes:
+            if n.ast is not None and n.kind == "stmt":
+                for c in ast.walk(n.ast):
+                    if isinstance(c, ast.Call) and isinstance(c.func, ast.Attribute) and c.func.attr == "add_sample":
+                        for k in c.keywords:
+                            if k.arg == "observation":
+                                stored = dotted(k.value)
+        items, seen_kinds = [], {}
+        try:
+            paths = enumerate_paths(cfg, L.outer_header, {L.step_node}, first_label=True, max_paths=3000)
+        except RuntimeError:
+            raise AnalysisError(f"{lq}: too many paths from the loop header to env.step")
+        for pth in paths:
+            pe = PathEval(nfp, cfg, mi, lq, envl).run(pth[:-1])
+            av = pe.env.get(act.id)
+            if av is None:
+                raise AnalysisError(f"{lq}: the action has no value on a path to env.step")
+            a = av.canon()
+            for w_ in ("int(", "asarray(", "array("):
+                pass
+            if a.endswith("action_space.sample()"):
+                kind = "random"
+                seen_kinds.setdefault(kind, set()).add((a, a == f"{L.env}.action_space.sample()"))
+            elif "greedy_policy(" in a:
+                kind = "greedy"
+                m_ = nfp.meta.get(a, {})
+                args_ = [x.canon() for x in m_.get("args", [])]
+                okg = len(args_) == 2 and args_[0] == "q_net" and (stored is None or args_[1] in (stored, pe.env.get(stored, Poly.atom(stored)).canon()))
+                seen_kinds.setdefault(kind, set()).add((a, okg))
+            else:
+                raise AnalysisError(f"{lq}: executed action `{a[:80]}` is neither the space sample nor greedy_policy(...) (unrecognised idiom)")
+            conds = [(cfg.nodes[nid].ast.test, nid, lab) for nid, lab in pth[:-1] if cfg.nodes[nid].kind == "test" and lab in (True, False) and isinstance(cfg.nodes[nid].ast, ast.If)]
+            # only conditions that involve the exploration quantities take part (logging / episode bookkeeping do not select the action)
+            conds = [c_ for c_ in conds if any(w in ast.unparse(c_[0]) for w in ("epsilon", "learning_starts", "explor", "random", "warm")) or any(isinstance(x, ast.Name) and cfg._expand_name(x, c_[1]) is not None for x in ast.walk(c_[0]))]
+            items.append((conds, kind))
+        pred = parse_expr(f"({cvar} < learning_starts) or (epsilon_rolls[{cvar}] < epsilon[{cvar}])" if has_ls else f"epsilon_rolls[{cvar}] < epsilon[{cvar}]")
+        first_test = next((nid for conds_, _ in items for _, nid, _ in conds_), None)
+        ck.need(first_test is not None, f"{lq}: the executed action does not depend on any exploration test (unrecognised idiom)")
+        verdict, info = selector_table(nfp, mi, cfg, items, pred, "random", "greedy", opaque=set(param_names(L.fn)) | {cvar}, pred_at=first_test)
+        if verdict is None:
+            raise AnalysisError(f"{lq}: action selection not comparable with the documented exploration test: {info}")
+        ck.ob("R4-greedy", lq, "exploration-test", verdict, f"random iff {ast.unparse(pred)} (truth table over {len(items)} path(s))", "" if verdict else f"documented: random action iff {ast.unparse(pred)}; differs in the world {info}", loc(mi, L.fn))
+        okr = "random" in seen_kinds and all(o for _, o in seen_kinds["random"])
+        ck.ob("R4-greedy", lq, "random-arm", okr, f"explore -> {sorted(a_ for a_, _ in seen_kinds.get('random', []))[:1]}", "" if okr else "exploring arm must sample the seeded action space of the environment", loc(mi, L.fn))
+        okg = "greedy" in seen_kinds and all(o for _, o in seen_kinds["greedy"])
+        ck.ob("R4-greedy", lq, "greedy-arm", okg, f"exploit -> {sorted(a_[:70] for a_, _ in seen_kinds.get('greedy', []))[:1]}", "" if okg else "the non-exploring arm must be greedy_policy(<online q_net>, <current observation>): acting on the target copy or another observation is not acting on the current estimates", loc(mi, L.fn))
         # schedule
         eps = [n for n in cfg.nodes if n.kind == "stmt" and isinstance(n.ast, ast.Assign) and dotted(n.ast.targets[0]) == "epsilon"]
-        ok = len(eps) == 1 and ast.unparse(eps[0].ast.value) == "linear_schedule(total_timesteps)"
+        ok = len(eps) == 1 and nfp.poly(eps[0].ast.value, Scope(None, mi, {}, lq), None).canon() in ("rl_blox.blox.schedules.linear_schedule(total_timesteps)", "linear_schedule(total_timesteps)")
         ck.ob("R4-greedy", lq, "epsilon-schedule", ok, f"epsilon = {ast.unparse(eps[0].ast.value) if eps else None}", "" if ok else "epsilon must be the documented linear schedule (1.0 -> 0.1 over the first 10%) over total_timesteps", loc(mi, eps[0].ast if eps else L.fn))
         rolls = [n for n in cfg.nodes if n.kind == "stmt" and isinstance(n.ast, ast.Assign) and dotted(n.ast.targets[0]) == "epsilon_rolls"]
         ok = len(rolls) == 1 and ast.unparse(rolls[0].ast.value).startswith("jax.random.uniform(") and "(total_timesteps,)" in ast.unparse(rolls[0].ast.value)
